@@ -214,7 +214,7 @@ class StmtMixin(ContractMixin):
 
     def st_Assign(self, s, st):
         v = self.ev(s.value, st)
-        if isinstance(v, VDyn) and not all(isinstance(t, ast.Name) for t in s.targets):
+        if isinstance(v, VDyn):
             v = self.narrow(st, v)
         for t in s.targets:
             self.bind_target(st, t, v, s)
